@@ -148,7 +148,7 @@ theorem touchFrames_spec (s : State) (h : SInv s) (pn : Nat) (f : Rec → Rec ×
     ∃ s' fs, touchFrames s pn f = some (s', fs) ∧ SInv s' ∧ s'.offset = s.offset ∧ s'.log = s.log ∧ s'.la = s.la ∧
       s'.now = s.now ∧ s'.recs.length = s.recs.length ∧
       (∀ q, q ≠ pn → s'.recs[q - s.offset]? = s.recs[q - s.offset]? ∨ q < s.offset) ∧
-      ((s.offset ≤ pn ∧ ∃ r x, s.recs[pn - s.offset]? = some r ∧ s.log[pn - s.offset]? = some x ∧
+      ((s.offset ≤ pn ∧ ∃ r x, s.recs[pn - s.offset]? = some r ∧ s.log[pn - s.offset]? = some x ∧ r.nframes = x.length ∧
           s'.recs[pn - s.offset]? = some (f r).1 ∧ fs = x.take (f r).2) ∨
        ((pn < s.offset ∨ s.recs[pn - s.offset]? = none) ∧ fs = [] ∧ s' = s)) := by
   unfold touchFrames frameOffset
@@ -170,7 +170,7 @@ theorem touchFrames_spec (s : State) (h : SInv s) (pn : Nat) (f : Rec → Rec ×
     rw [sumFrames_take s h, h.queue]
     have hc : (f r).2 ≤ x.length := by rcases hf.count r with hc | hc <;> omega
     rw [if_neg (by omega)]
-    refine ⟨_, _, rfl, ⟨?_, rfl⟩, rfl, rfl, rfl, rfl, by simp, ?_, Or.inl ⟨hin.1, r, x, rfl, hx, ?_, ?_⟩⟩
+    refine ⟨_, _, rfl, ⟨?_, rfl⟩, rfl, rfl, rfl, rfl, by simp, ?_, Or.inl ⟨hin.1, r, x, rfl, hx, hnx, ?_, ?_⟩⟩
     · simp only; rw [map_set_same _ _ r _ hr (hf.keep r)]; exact h.frames
     · intro q hq
       by_cases hqo : q < s.offset
@@ -190,5 +190,131 @@ theorem touchFrames_spec (s : State) (h : SInv s) (pn : Nat) (f : Rec → Rec ×
     by_cases hlt : pn < s.offset
     · exact Or.inl hlt
     · right; apply List.getElem?_eq_none; simp only [State.largest] at hin; omega
+
+/-- `on_packet_acked(pn)` reports exactly `live s pn` and settles the record -/
+theorem acked_spec (s : State) (h : SInv s) (pn : Nat) :
+    ∃ s', touchFrames s pn Rec.beAcked = some (s', live s pn) ∧ SInv s' ∧ s'.offset = s.offset ∧ s'.log = s.log ∧
+      s'.la = s.la ∧ s'.now = s.now ∧ s'.recs.length = s.recs.length ∧
+      (pn < s.largest → Settled s' pn) ∧ (∀ q, Settled s q → Settled s' q) ∧
+      (∀ q, q ≠ pn → live s' q = live s q) := by
+  obtain ⟨s', fs, h1, h2, h3, h4, h5, h6, h7, h8, h9⟩ := touchFrames_spec s h pn Rec.beAcked touch_beAcked
+  have hothers : ∀ q, q ≠ pn → live s' q = live s q := by
+    intro q hq
+    unfold live
+    rw [h3, h4]
+    rcases h8 q hq with h8 | h8
+    · rw [h8]
+    · rw [if_neg (by omega), if_neg (by omega)]
+  have hsettled : ∀ q, q ≠ pn → Settled s q → Settled s' q := by
+    intro q hq hs
+    unfold Settled at *
+    rw [h3]
+    rcases hs with hs | hs
+    · exact Or.inl hs
+    · rcases h8 q hq with h8 | h8
+      · rw [h8]; exact Or.inr hs
+      · exact Or.inl h8
+  rcases h9 with ⟨ho, r, x, hr, hx, hn, hr', hfs⟩ | ⟨hno, hfs, hs'⟩
+  · have hlive : live s pn = fs := by
+      unfold live
+      rw [if_pos ho, hr, hfs]
+      simp only [List.getD_eq_getElem?_getD, hx, Option.getD_some]
+      cases r <;> simp only [Rec.beAcked, Rec.nframes] at hn ⊢
+      all_goals (try subst hn)
+      all_goals simp
+    rw [hlive]
+    refine ⟨s', h1, h2, h3, h4, h5, h6, h7, ?_, ?_, hothers⟩
+    · intro _
+      right; rw [h3]; refine ⟨_, hr', ?_⟩
+      cases r <;> simp [Rec.beAcked]
+    · intro q hs
+      by_cases hq : q = pn
+      · subst hq
+        rcases hs with hs | ⟨r2, hr2, hk⟩
+        · left; rw [h3]; exact hs
+        · right; rw [h3]; rw [hr] at hr2; cases hr2
+          refine ⟨_, hr', ?_⟩
+          rcases hk with hk | ⟨n, hk⟩ <;> subst hk <;> simp [Rec.beAcked]
+      · exact hsettled q hq hs
+  · have hlive : live s pn = [] := by
+      unfold live
+      rcases hno with hno | hno
+      · rw [if_neg (by omega)]
+      · split
+        · rw [hno]
+        · rfl
+    have hs'' := hs'.symm
+    subst hs''
+    rw [hlive, ← hfs]
+    refine ⟨s, h1, h, rfl, rfl, rfl, rfl, rfl, ?_, fun q hs => hs, fun q _ => rfl⟩
+    intro hlt
+    rcases hno with hno | hno
+    · exact Or.inl hno
+    · by_cases hpo : pn < s.offset
+      · exact Or.inl hpo
+      · exfalso
+        have : pn - s.offset < s.recs.length := by simp only [State.largest] at hlt; omega
+        rw [List.getElem?_eq_getElem this] at hno; cases hno
+
+/-- `may_loss_packet(pn)` reports exactly `live s pn`; the packet stays live (an ACK may still deliver it) -/
+theorem lost_spec (s : State) (h : SInv s) (pn : Nat) :
+    ∃ s', touchFrames s pn Rec.maybeLost = some (s', live s pn) ∧ SInv s' ∧ s'.offset = s.offset ∧ s'.log = s.log ∧
+      s'.la = s.la ∧ s'.now = s.now ∧ s'.recs.length = s.recs.length ∧
+      (∀ q, Settled s q → Settled s' q) ∧ (∀ q, live s' q = live s q) := by
+  obtain ⟨s', fs, h1, h2, h3, h4, h5, h6, h7, h8, h9⟩ := touchFrames_spec s h pn Rec.maybeLost touch_maybeLost
+  have hothers : ∀ q, q ≠ pn → live s' q = live s q := by
+    intro q hq
+    unfold live
+    rw [h3, h4]
+    rcases h8 q hq with h8 | h8
+    · rw [h8]
+    · rw [if_neg (by omega), if_neg (by omega)]
+  have hsettled : ∀ q, q ≠ pn → Settled s q → Settled s' q := by
+    intro q hq hs
+    unfold Settled at *
+    rw [h3]
+    rcases hs with hs | hs
+    · exact Or.inl hs
+    · rcases h8 q hq with h8 | h8
+      · rw [h8]; exact Or.inr hs
+      · exact Or.inl h8
+  rcases h9 with ⟨ho, r, x, hr, hx, hn, hr', hfs⟩ | ⟨hno, hfs, hs'⟩
+  · have hlive : live s pn = fs := by
+      unfold live
+      rw [if_pos ho, hr, hfs]
+      simp only [List.getD_eq_getElem?_getD, hx, Option.getD_some]
+      cases r <;> simp only [Rec.maybeLost, Rec.nframes] at hn ⊢
+      all_goals (try subst hn)
+      all_goals simp
+    have hlive' : live s' pn = live s pn := by
+      unfold live
+      simp only [h3, h4, ho, if_true, hr', hr]
+      cases r <;> rfl
+    rw [hlive]
+    refine ⟨s', h1, h2, h3, h4, h5, h6, h7, ?_, ?_⟩
+    · intro q hs
+      by_cases hq : q = pn
+      · subst hq
+        rcases hs with hs | ⟨r2, hr2, hk⟩
+        · left; rw [h3]; exact hs
+        · right; rw [h3]; rw [hr] at hr2; cases hr2
+          refine ⟨_, hr', ?_⟩
+          rcases hk with hk | ⟨n, hk⟩ <;> subst hk <;> simp [Rec.maybeLost]
+      · exact hsettled q hq hs
+    · intro q
+      by_cases hq : q = pn
+      · subst hq; exact hlive'
+      · exact hothers q hq
+  · have hlive : live s pn = [] := by
+      unfold live
+      rcases hno with hno | hno
+      · rw [if_neg (by omega)]
+      · split
+        · rw [hno]
+        · rfl
+    have hs'' := hs'.symm
+    subst hs''
+    rw [hlive, ← hfs]
+    exact ⟨s, h1, h, rfl, rfl, rfl, rfl, rfl, fun q hs => hs, fun q => rfl⟩
 
 end GmQuic.SentFrames
